@@ -128,13 +128,13 @@ fn props() -> Vec<Prop> {
             run: scen_body::c07,
             quick: 100_000,
             thorough: 5_000_000,
-            subs: &["complete", "truncated-by-peer-close", "complete"],
+            subs: &["complete", "truncated-by-peer-close", "complete", "small-scope-enumerated"],
             level: "exploration",
             rule: "generated valid chunked codings (3 of 4 in the small scope: <=3 chunks of sizes 1..3 and 15/16/255/256/4095/4096; else up to 12 chunks / 12000 bytes; upper/lower hex, leading zeros, extensions, 0..2 trailers, payload with CR/LF/0/;) reached through a real head and always followed by a next message, delivered under drawn arrival cut sets (one-shot, trickle, random, structural at every grammar-class change +-2) into drawn output sizes (0..4, 1, random, large, mixed) with boundary stopping on/off/toggled and re-polls; a sub-batch truncates the coding (peer close); non-trivial = >=2 reads; distinct = abstract trace (grammar class at window end, output class, stop, progress kind)",
             assumptions: &[A_COMMON, "chunk size line (digits + extension) <= 20 bytes: the decoder's sanity limit is treated as a resource limit", "trailer lines contain no bare CR"],
             cells_total: 13 * 8,
             cells_what: "(grammar class of the last visible coding byte: size digit, ext, size CR, size LF, data, data CR, data LF, last-chunk size, trailer, trailer CR, trailer LF, final CR, final LF) x (output space 0 / 1 / 2..4 / larger) x (boundary stop on/off)",
-            exhaustive_note: "",
+            exhaustive_note: "sub-batch small-scope-enumerated: the run index enumerates (coding of <=3 chunks with sizes 1..3, extension yes/no, 0..2 trailers, leading zeros yes/no: 480 codings) x (one-shot / every single cut position / byte-by-byte) x (output size 0,1,2,3,4,large) x (boundary stop on/off); the product (~2.6e5 runs) is covered completely by the thorough tier and strided by the quick tier; multi-cut sets and the hex-boundary sizes are sampled",
         },
         Prop {
             id: "C08",
@@ -316,7 +316,7 @@ fn props() -> Vec<Prop> {
             assumptions: &[A_COMMON, "no claim about which error is returned", "hang detection: per-exchange step budget derived from the message sizes, plus a 30 s wall-clock watchdog per run"],
             cells_total: 16,
             cells_what: "error site (Await100 / RecvResponse / RecvBody) + target call of the alphabet strings (5) + oversize / unsolicited kind (8)",
-            exhaustive_note: "alphabet strings: all 14425 strings up to length 3 (quick) / all 346201 up to length 4 (thorough) are enumerated; each is offered to one drawn target call per run",
+            exhaustive_note: "alphabet strings: all 12720 strings up to length 3 (quick) / all 292561 up to length 4 (thorough) are enumerated; each is offered to one drawn target call per run",
         },
     ]
 }
